@@ -16,7 +16,7 @@ import re
 import core
 
 KINDS = ("process", "process16", "procrelay", "policy", "hdrc", "utf16c", "authpayload", "matchauth", "clientip",
-         "paa", "usertok")
+         "paa", "usertok", "handshake", "tunnel", "config")
 MAX_LINE = 1500      # characters of a case line: keeps the generated file small
 SAMPLE = 150
 
@@ -135,6 +135,21 @@ def term(c):
         idp = f[1].split(":")
         sub = "(Some %s)" % blist(hexf(idp[1])) if idp[0] == "valid" and len(idp) == 2 else "None"
         return "paa_obs (%s)%%Z %s %s" % (f[0], sub, tok)
+    if k == "handshake":
+        return "handshake_obs %s %s %s" % (coq_bool(f[0]), coq_bool(f[1]), blist(hexf(f[2])))
+    if k == "tunnel":
+        # bits, transport, user (hex text, used verbatim), own address, items
+        return "tunnel_obs (%s) %s %s %s" % (coq_cfg(f[0], "0000000", "0"), blist(f[2].encode()), blist(hexf(f[3])), coq_items(f[4]))
+    if k == "config":
+        mech, hostsel, qk, hosts, flags, lens, envb = f[0], f[1], f[2], f[3], f[4], f[5].split(","), f[6]
+        r = ("{| r_openid := %s; r_kerberos := %s; r_local := %s; r_ntlm := %s; r_tls_disable := %s; r_hostsel := %s; "
+             "r_querykey_len := %s%%N; r_hosts := %s%%N; r_keytab_set := %s; r_tokenauth := %s; r_enable_usertoken := %s; "
+             "r_paa_enc_len := %s%%N; r_paa_sign_len := %s%%N; r_user_enc_len := %s%%N; r_session_len := %s%%N; "
+             "r_session_enc_len := %s%%N |}") % (coq_bool(mech[0]), coq_bool(mech[1]), coq_bool(mech[2]), coq_bool(mech[3]),
+                                                coq_bool(mech[4]), blist(hexf(hostsel)), qk, hosts, coq_bool(flags[0]),
+                                                coq_bool(flags[1]), coq_bool(flags[2]), lens[0], lens[1], lens[2], lens[3], lens[4])
+        e = "{| e_idp_ok := %s; e_keytab_loadable := %s; e_krb5conf_ok := %s |}" % (coq_bool(envb[0]), coq_bool(envb[1]), coq_bool(envb[2]))
+        return "config_obs %s %s" % (r, e)
     if k == "usertok":
         tok = coq_jwe(f[3])
         if tok is None or not re.match(r"^-?\d+$", f[2]):
@@ -166,7 +181,7 @@ def run(prop, cases, log):
     with open(path, "w") as f:
         f.write("(* generated by lib/coqcases.py: %d sampled cases of %s re-evaluated inside Coq *)\n" % (len(cs), prop))
         f.write("From Coq Require Import List NArith ZArith Bool.\nFrom Coq.Strings Require Import Byte.\n")
-        f.write("From RDPGW Require Import Lib.Bytes Gen.Consts Model.Packets Model.Processor Model.Policy Model.Token Spec.Show.\n")
+        f.write("From RDPGW Require Import Lib.Bytes Gen.Consts Model.Packets Model.Processor Model.Policy Model.Token Model.Config Spec.Show.\n")
         f.write("Import ListNotations.\n\n")
         for i, c in enumerate(cs):
             f.write("Definition c%d : bool := bytes_eqb (%s) %s.\n" % (i, term(c), blist(c.model.encode())))
